@@ -230,6 +230,8 @@ struct mon {
 	/* C07 */
 	bool synced_once;
 	time_t t_success;
+	time_t t_last_choice; /* clock at the last choice point (open / query / wait in ESTABLISHED) */
+	bool open_just_failed; /* the previous open() failed and the client has not slept since */
 	bool expect_reset_on_this_conn; /* set at open() when expired */
 	bool first_query_of_conn;
 	/* C13 */
@@ -753,6 +755,12 @@ static int hook_open(void)
 
 	cont_check_bound();
 	WHERE = "open";
+	MON.t_last_choice = ENV.now;
+	/* C08: a failed connection attempt must be followed by a wait, not by the next attempt at once */
+	if (is_prop("C08") && MON.open_just_failed) {
+		violation("reconnect-without-wait", "after a failed open() the client opens again without having slept: it loops without letting time advance");
+		MON.open_just_failed = false;
+	}
 	if (NOPEN > 1) {
 		c = ex_choose(NOPEN, 1);
 		if (c < 0)
@@ -789,6 +797,7 @@ static int hook_open(void)
 		violation("other-source-altered", "records of another source changed");
 	MON.first_query_of_conn = true;
 	MON.conn_has_pdu = false;
+	MON.open_just_failed = c == O_FAIL; /* O_FAIL_SLOW let time pass inside the attempt itself */
 	return c == O_OK ? TR_SUCCESS : TR_ERROR;
 }
 
@@ -904,6 +913,8 @@ static int hook_send(const void *buf, size_t len, time_t timeout)
 		int c;
 
 		WHERE = "query";
+		MON.t_last_choice = ENV.now;
+	MON.t_last_choice = ENV.now;
 		c = ex_choose(NMENU, 1);
 		if (c < 0)
 			env_end_run(PARK_HORIZON);
@@ -939,6 +950,8 @@ static int hook_recv_empty(size_t want, time_t timeout)
 			violation("established-wait-timeout", what);
 		}
 		WHERE = "idle";
+		MON.t_last_choice = ENV.now;
+	MON.t_last_choice = ENV.now;
 		if (NIDLE > 1) {
 			c = ex_choose(NIDLE, 1);
 			if (c < 0)
@@ -1015,7 +1028,8 @@ static int hook_recv_empty(size_t want, time_t timeout)
 
 static void hook_sleep(unsigned int secs)
 {
-	(void)secs;
+	if (secs > 0)
+		MON.open_just_failed = false;
 	cont_check_bound();
 	if (is_prop("C13") && MON.expect_fast_reconnect) {
 		violation("downgrade-reconnect-not-immediate",
@@ -1095,6 +1109,20 @@ static void run_one(void)
 	}
 	if (!stopped_for_good)
 		env_fsm_reap(SOCK);
+	/*
+	 * C08: every open, every query and every wait in ESTABLISHED is a choice point of the exploration.  An
+	 * execution of the search that runs into the horizon of environment calls without reaching another one is a
+	 * client that has stopped talking to the cache for good (it sleeps, or spins, for ever): no continuation is
+	 * ever started from such an execution, so it is judged here
+	 */
+	if (is_prop("C08") && EX.mode == EX_BFS && !EX.ended && ENV.horizon_hit && !ENV.livelock) {
+		char what[300];
+
+		snprintf(what, sizeof(what),
+			 "after the last fault the client made %ld environment calls (%ld s of protocol time) without opening a connection, sending a query or waiting for the cache again; socket state %s",
+			 ENV.calls, (long)(ENV.now - MON.t_last_choice), rtr_state_to_str(SOCK->state));
+		violation("stuck-without-contacting-the-cache", what);
+	}
 	if (ENV.livelock)
 		violation("livelock", "more than 400 consecutive environment calls without consuming input, sending or letting time advance");
 	if (!x_intact() && !is_prop("C07"))
